@@ -1,6 +1,7 @@
 //! Calendar queue (C01, C03): script `n t ts u op*` (ts = 0: `CQueue::new`, else `CQueue::new_at`;
 //! every time is given in units of u ns, u = 0 meaning 1, and printed divided by u) with
-//! op = 1 time pay (add) | 2 k (cancel k-th handle) | 3 (fetch) | 4 (len) | 5 (time) | 6 (peek_time).
+//! op = 1 time pay (add) | 2 k (cancel k-th handle) | 3 (fetch) | 4 (len) | 5 (time) | 6 (peek_time) |
+//! 7 (representation invariant of `verif_snapshot()`: 7 sorted index times len window, each 0/1).
 //! Output per op: add -> 1 | fetch -> 2 pay time | len -> 3 n | time -> 4 t |
 //! cancel -> 5 | peek -> 6 0 / 6 1 t | panic -> 9 site (1 = add in the past, 2 = fetch on empty).
 use des_cqueue::{CQueue, EventHandle};
@@ -79,6 +80,24 @@ fn run_line(nums: &[u64]) -> Vec<u64> {
                     Some(t) => out.extend([6, 1, units(t)]),
                     None => out.extend([6, 0]),
                 }
+            }
+            7 => {
+                i += 1;
+                let s = q.verif_snapshot();
+                let tn = t.as_nanos();
+                let key = |e: &(Duration, usize)| (e.0, e.1);
+                let sorted = s.links_ok && s.buckets.iter().all(|b| b.windows(2).all(|w| key(&w[0]) < key(&w[1])));
+                let index = s.buckets.len() == n
+                    && s.buckets.iter().enumerate().all(|(i, b)| {
+                        b.iter().all(|e| (((e.0.as_nanos() % (tn * n as u128)) / tn) % n as u128) as usize == i)
+                    });
+                let times = s.zero.iter().all(|e| e.0 == s.t_current)
+                    && s.buckets.iter().all(|b| b.iter().all(|e| e.0 >= s.t_current));
+                let len = s.len == s.zero.len() + s.buckets.iter().map(|b| b.len()).sum::<usize>();
+                let window = s.t1 == s.t0 + t
+                    && s.t0.as_nanos() % tn == 0
+                    && s.head as u128 == (s.t0.as_nanos() / tn) % n as u128;
+                out.extend([7, sorted as u64, index as u64, times as u64, len as u64, window as u64]);
             }
             _ => break,
         }
